@@ -6,10 +6,10 @@ package main
 import (
 	"bytes"
 	"fmt"
-	"strings"
 	"math/big"
 	"math/rand"
 	"sort"
+	"strings"
 
 	"github.com/pyroscope-io/pyroscope/pkg/storage/dict"
 	"github.com/pyroscope-io/pyroscope/pkg/storage/tree"
@@ -31,6 +31,53 @@ type Input struct {
 	// Hold: other trees that are encoded with Tree.Bytes AFTER this tree's bytes were obtained and BEFORE they are
 	// decoded (the storage's save goroutines call Bytes for one tree after another and keep the slices)
 	Hold [][]treeu.Stack `json:"hold,omitempty"`
+	// Seq: further encodings performed one after another on ONE second tree object built from the same input
+	// (nothing is inserted or merged in between), each with its own cap
+	Seq []SeqStep `json:"seq,omitempty"`
+	// Big: a generated tree of tens of thousands of nodes (replaces Tree/Stacks), encoded under a cap above its size
+	Big *BigSpec `json:"big,omitempty"`
+}
+
+type SeqStep struct {
+	Kind int `json:"kind"` // 0 Bytes/FromBytes (fresh dictionary), 1 SerializeNoDict/DeserializeNoDict, 2 FlamebearerStruct, 3 minValue
+	Cap  int `json:"cap"`
+}
+
+// BigSpec: the root has Chains children "c0000", "c0001", ...; each is the top of a chain of Depth frames that all
+// have self 0 except the two leaves at its bottom, so every frame of a chain has the same total (ties), and the
+// totals do not increase from one chain to the next (ZeroChains chains at the end have total 0).
+type BigSpec struct {
+	Chains     int `json:"chains"`
+	Depth      int `json:"depth"`
+	ZeroChains int `json:"zero_chains"`
+	Ones       int `json:"ones"` // so many chains (before the zero ones) have the leaf values 1 and 0
+}
+
+func buildBig(b *BigSpec) *tree.VerifNode {
+	root := &tree.VerifNode{Name: []byte{}}
+	for c := 0; c < b.Chains; c++ {
+		var l1, l2 uint64 = 2, 1
+		switch {
+		case c >= b.Chains-b.ZeroChains:
+			l1, l2 = 0, 0
+		case c >= b.Chains-b.ZeroChains-b.Ones:
+			l1, l2 = 1, 0
+		case c%3 == 0:
+			l1, l2 = 2, 2
+		}
+		tot := l1 + l2
+		top := &tree.VerifNode{Name: []byte(fmt.Sprintf("c%04d", c)), Total: tot}
+		cur := top
+		for d := 1; d < b.Depth-1; d++ {
+			n := &tree.VerifNode{Name: []byte("f"), Total: tot}
+			cur.Children = []*tree.VerifNode{n}
+			cur = n
+		}
+		cur.Children = []*tree.VerifNode{{Name: []byte("x"), Self: l1, Total: l1}, {Name: []byte("y"), Self: l2, Total: l2}}
+		root.Children = append(root.Children, top)
+		root.Total += tot
+	}
+	return root
 }
 
 var holdSink int
@@ -85,6 +132,9 @@ func corrupt(b []byte, s *BadSpec) []byte {
 }
 
 func build(in Input) *tree.Tree {
+	if in.Big != nil {
+		return tree.VerifBuild(buildBig(in.Big))
+	}
 	if in.Tree != nil {
 		return tree.VerifBuild(treeu.FromJ(in.Tree))
 	}
@@ -115,6 +165,49 @@ func totalsClass(n *tree.VerifNode) string {
 	return cls
 }
 
+// coqRLE prints a dumped tree like treeu.Coq, except that a run of k >= 4 frames with identical name, self and total,
+// each the only child of the previous one, is printed as (t_rep k name self total <what is below the run>).
+func coqRLE(n *tree.VerifNode) string {
+	var sb strings.Builder
+	var rec, plain func(n *tree.VerifNode)
+	rec = func(n *tree.VerifNode) {
+		// j leading frames whose only child repeats their name, self and total
+		j, cur := 0, n
+		for len(cur.Children) == 1 && bytes.Equal(cur.Children[0].Name, n.Name) && cur.Children[0].Self == n.Self && cur.Children[0].Total == n.Total {
+			cur = cur.Children[0]
+			j++
+		}
+		if j >= 3 {
+			sb.WriteString("(t_rep " + lib.Nat(j) + " " + lib.Bytes(n.Name) + " " + lib.N(n.Self) + " " + lib.N(n.Total) + " ")
+			plain(cur)
+			sb.WriteString(")")
+			return
+		}
+		plain(n)
+	}
+	plain = func(n *tree.VerifNode) {
+		sb.WriteString("(TNode " + lib.Bytes(n.Name) + " " + lib.N(n.Self) + " " + lib.N(n.Total) + " [")
+		for i, c := range n.Children {
+			if i > 0 {
+				sb.WriteString("; ")
+			}
+			rec(c)
+		}
+		sb.WriteString("])")
+	}
+	rec(n)
+	return sb.String()
+}
+
+var bigMode bool
+
+func coqTree(n *tree.VerifNode) string {
+	if bigMode {
+		return coqRLE(n)
+	}
+	return treeu.Coq(n)
+}
+
 func optTree(f func() (*tree.Tree, error)) (res string) {
 	defer func() {
 		if r := recover(); r != nil {
@@ -125,7 +218,7 @@ func optTree(f func() (*tree.Tree, error)) (res string) {
 	if err != nil || t == nil {
 		return "None"
 	}
-	return lib.Some(treeu.Coq(t.VerifDump()))
+	return lib.Some(coqTree(t.VerifDump()))
 }
 
 func collectTotals(n *tree.VerifNode, acc *[]uint64, zeros *int) {
@@ -142,9 +235,10 @@ func run(in Input) lib.Result {
 	if in.Cap < 1 {
 		in.Cap = 1
 	}
+	bigMode = in.Big != nil
 	t := build(in)
 	orig := t.VerifDump()
-	before := treeu.Coq(orig)
+	before := coqTree(orig)
 	n := treeu.Size(orig)
 	minv := t.VerifMinValue(in.Cap)
 
@@ -185,7 +279,43 @@ func run(in Input) lib.Result {
 			bad = lib.Some(lib.Pair(lib.Bytes(bb), res))
 		}
 	}
-	after := treeu.Coq(t.VerifDump())
+	after := coqTree(t.VerifDump())
+	// sequence of encodings on one second tree object
+	var seq []string
+	if len(in.Seq) > 0 {
+		t2 := build(in)
+		for _, st := range in.Seq {
+			cp := st.Cap
+			if cp < 1 {
+				cp = 1
+			}
+			dec, mv := "None", uint64(0)
+			switch st.Kind {
+			case 0:
+				dec = optTree(func() (*tree.Tree, error) {
+					d := dict.New()
+					b, err := t2.Bytes(d, cp)
+					if err != nil {
+						return nil, err
+					}
+					return tree.FromBytes(d, b)
+				})
+			case 1:
+				dec = optTree(func() (*tree.Tree, error) {
+					var buf bytes.Buffer
+					if err := t2.SerializeNoDict(cp, &buf); err != nil {
+						return nil, err
+					}
+					return tree.DeserializeNoDict(bytes.NewReader(buf.Bytes()))
+				})
+			case 2:
+				t2.FlamebearerStruct(cp)
+			default:
+				mv = t2.VerifMinValue(cp)
+			}
+			seq = append(seq, "{| q_kind := "+lib.Nat(st.Kind)+"; q_cap := "+lib.Nat(cp)+"; q_dec := "+dec+"; q_minval := "+lib.N(mv)+" |}")
+		}
+	}
 
 	var totals []uint64
 	zeros := 0
@@ -210,7 +340,8 @@ func run(in Input) lib.Result {
 	}
 	coq := "{| c_orig := " + before + "; c_cap := " + lib.Nat(in.Cap) + "; c_pre := " + lib.BytesList(in.Pre) +
 		"; c_minval := " + lib.N(minv) + "; c_dec_fresh := " + fresh + "; c_dec_pre := " + pre +
-		"; c_dec_nodict := " + nodict + "; c_src_untouched := " + lib.Bool(before == after) + "; c_bad := " + bad + " |}"
+		"; c_dec_nodict := " + nodict + "; c_src_untouched := " + lib.Bool(before == after) + "; c_seq := " + lib.List(seq) + "; c_big := " + lib.Bool(in.Big != nil) +
+		"; c_bad := " + bad + " |}"
 	mode := in.Mode
 	if mode == "" {
 		mode = "wf"
@@ -220,7 +351,7 @@ func run(in Input) lib.Result {
 		NonTrivial: ties > 0 || (in.Cap >= n-1 && in.Cap <= n+1),
 		Feat: map[string]interface{}{"nodes_class": sizeClass(n), "cap_vs_nodes": rel, "ties_class": sizeClass(ties),
 			"zero_total_nodes_class": sizeClass(zeros), "mode": mode, "built_by": builtBy(in), "pre_dict": len(in.Pre) > 0,
-			"threshold_zero": minv == 0, "malformed_stream": badKind(in), "totals": totalsClass(orig), "cloned": in.CloneD != 0, "held_across_other_encodes": len(in.Hold)},
+			"threshold_zero": minv == 0, "malformed_stream": badKind(in), "totals": totalsClass(orig), "cloned": in.CloneD != 0, "held_across_other_encodes": len(in.Hold), "sequence_steps": len(in.Seq), "sequence_shape": seqShape(in.Seq, n), "big_tree": in.Big != nil},
 		Obs: map[string]interface{}{"nodes": n, "minval": minv},
 	}
 }
@@ -386,6 +517,76 @@ func genPre(r *rand.Rand) [][]byte {
 	return pre
 }
 
+func seqShape(seq []SeqStep, n int) string {
+	tightFirst, looseFirst, flame := false, false, false
+	seenTight, seenLoose := false, false
+	for _, st := range seq {
+		if st.Kind == 2 || st.Kind == 3 {
+			flame = true
+		}
+		if st.Cap < n {
+			if seenLoose {
+				looseFirst = true
+			}
+			seenTight = true
+		} else {
+			if seenTight {
+				tightFirst = true
+			}
+			seenLoose = true
+		}
+	}
+	res := ""
+	if tightFirst {
+		res += "tight->loose "
+	}
+	if looseFirst {
+		res += "loose->tight "
+	}
+	if flame {
+		res += "flame/minval-between"
+	}
+	if res == "" {
+		res = "none"
+	}
+	return res
+}
+
+func genSeq(r *rand.Rand, n int) []SeqStep {
+	if r.Intn(2) == 0 {
+		return nil
+	}
+	tight := lib.Pick(r, []int{1, 2, 3, n / 2, n - 1, n - 2})
+	loose := lib.Pick(r, []int{n, n + 1, n + 2, 1024, 2*n + 1})
+	if tight < 1 {
+		tight = 1
+	}
+	enc := func(c int) SeqStep { return SeqStep{Kind: r.Intn(2), Cap: c} }
+	mid := func(c int) SeqStep { return SeqStep{Kind: 2 + r.Intn(2), Cap: c} }
+	switch r.Intn(6) {
+	case 0:
+		return []SeqStep{enc(tight), enc(loose)}
+	case 1:
+		return []SeqStep{enc(loose), enc(tight), enc(loose)}
+	case 2:
+		return []SeqStep{mid(tight), enc(loose)}
+	case 3:
+		return []SeqStep{enc(loose), mid(tight), enc(loose), enc(tight)}
+	case 4:
+		return []SeqStep{enc(tight), mid(lib.Pick(r, []int{tight, loose, n})), enc(loose)}
+	default:
+		return []SeqStep{enc(lib.Range(r, 1, n+2)), enc(lib.Range(r, 1, n+2)), enc(lib.Range(r, 1, n+2))}
+	}
+}
+
+func genBigInput(r *rand.Rand) Input {
+	depth := 250
+	chains := lib.Range(r, 265, 355) // 66.5k .. 89k nodes
+	b := &BigSpec{Chains: chains, Depth: depth, ZeroChains: lib.Range(r, 0, 3), Ones: lib.Range(r, 60, 140)}
+	n := chains*(depth+1) + 1
+	return Input{Big: b, Cap: lib.Pick(r, []int{n + 1, n + 7, 100000, 131072}), Mode: "big", Pre: [][]byte{[]byte("c00"), []byte("fx")}}
+}
+
 func genHold(r *rand.Rand) [][]treeu.Stack {
 	if r.Intn(10) >= 6 {
 		return nil
@@ -404,8 +605,14 @@ func genHold(r *rand.Rand) [][]treeu.Stack {
 }
 
 func gen(r *rand.Rand, idx int, tier string) Input {
+	if idx == 7 || (tier == "thorough" && idx%2000 == 7) {
+		return genBigInput(r)
+	}
 	in := gen0(r, idx, tier)
 	in.Hold = genHold(r)
+	if in.Bad == nil {
+		in.Seq = genSeq(r, treeu.Size(build(in).VerifDump()))
+	}
 	return in
 }
 
